@@ -46,6 +46,9 @@ def jdefault(o):
     import datetime
 
     if isinstance(o, datetime.datetime):
+        key = getattr(o.tzinfo, "key", None)
+        if key:  # an IANA zone: keep the zone and the fold, a fixed offset would not replay the same comparison semantics
+            return {"$dt": o.replace(tzinfo=None).isoformat(), "$zone": key, "$fold": o.fold}
         return {"$dt": o.isoformat()}
     if isinstance(o, (set, frozenset)):
         return sorted(o, key=repr)
@@ -252,6 +255,10 @@ def revive(o):
     if isinstance(o, dict):
         if set(o) == {"$dt"}:
             return datetime.datetime.fromisoformat(o["$dt"])
+        if set(o) == {"$dt", "$zone", "$fold"}:
+            from zoneinfo import ZoneInfo
+
+            return datetime.datetime.fromisoformat(o["$dt"]).replace(tzinfo=ZoneInfo(o["$zone"]), fold=o["$fold"])
         if set(o) == {"$b"}:
             return bytes.fromhex(o["$b"])
         return {k: revive(v) for k, v in o.items()}
@@ -452,6 +459,15 @@ def hyp_search(check, strategy, seed, max_examples, shrink=True):
         t()
     except Violation:
         return holder["v"]
+    except BaseException as e:
+        # Hypothesis re-runs a failing example; when the re-run does not fail the same way it reports "flaky".  The checks are
+        # pure functions of their case, so this means the code under test kept state from one example to the next (a process-wide
+        # cache, say) - the violation that was observed stands, its replay may need the preceding examples.
+        if "v" in holder and type(e).__name__ in ("Flaky", "FlakyFailure", "FlakyReplay", "ExceptionGroup", "BaseExceptionGroup"):
+            v = holder["v"]
+            v.message = v.message + " [not reproduced when the same example was run again: state survives between independent cases]"
+            return v
+        raise
     return None
 
 
